@@ -27,6 +27,7 @@ import (
 	"sync"
 	"testing"
 	"time"
+	"unicode/utf8"
 
 	"pgregory.net/rapid"
 )
@@ -35,6 +36,10 @@ type vfC19Msg struct {
 	Size int    `json:"size"`
 	Text bool   `json:"text"`
 	Seed uint32 `json:"seed"`
+	// content style, for text and binary alike (a Go string may hold any bytes, SendText takes a
+	// string): 0 ASCII letters, 1 valid UTF-8 with multi-byte runes, 2 the same with ill-formed
+	// sequences spliced in, 3 arbitrary bytes
+	Style int `json:"style,omitempty"`
 }
 
 type vfC19Chan struct {
@@ -55,17 +60,50 @@ type vfC19Case struct {
 	Chans []vfC19Chan `json:"chans"`
 }
 
+var vfC19Runes = []string{"a", "Z", " ", "é", "ß", "Ж", "漢", "€", "\u2028", "😀", "\U0010FFFF", "\x00", "\ufffd"}
+
+// ill-formed UTF-8: lone continuation bytes, truncated runes, overlong NUL, an encoded
+// surrogate, bytes that never occur, a code point beyond U+10FFFF
+var vfC19IllFormed = []string{"\x80", "\xbf\xbf", "\xc3", "\xe6\xbc", "\xf0\x9f\x98", "\xc0\x80", "\xed\xa0\x80", "\xff", "\xfe", "\xf4\x90\x80\x80", "\xe9"}
+
 func vfC19Payload(m vfC19Msg) []byte {
-	b := make([]byte, m.Size)
 	x := m.Seed*2654435761 + 0x9e3779b9
-	for i := range b {
-		x ^= x << 13
-		x ^= x >> 17
-		x ^= x << 5
-		if m.Text {
-			b[i] = byte('a' + x%26)
-		} else {
-			b[i] = byte(x)
+	next := func() uint32 { x ^= x << 13; x ^= x >> 17; x ^= x << 5; return x }
+	b := make([]byte, 0, m.Size)
+	switch m.Style {
+	case 1, 2:
+		// pieces until the size is reached; what does not fit any more is ASCII (style 1) or
+		// the head of a multi-byte rune, i.e. a truncated rune at the end (style 2)
+		spliced := false
+		for len(b) < m.Size {
+			var piece string
+			if m.Style == 2 && (next()%6 == 0 || (!spliced && m.Size-len(b) <= 4)) {
+				piece = vfC19IllFormed[next()%uint32(len(vfC19IllFormed))]
+				if len(b)+len(piece) <= m.Size {
+					spliced = true
+				}
+			} else {
+				piece = vfC19Runes[next()%uint32(len(vfC19Runes))]
+			}
+			if len(b)+len(piece) > m.Size {
+				if m.Style == 2 {
+					b = append(b, "\xf0\x9f\x98"[:m.Size-len(b)]...)
+				} else {
+					for len(b) < m.Size {
+						b = append(b, 'x')
+					}
+				}
+				break
+			}
+			b = append(b, piece...)
+		}
+	case 3:
+		for len(b) < m.Size {
+			b = append(b, byte(next()))
+		}
+	default:
+		for len(b) < m.Size {
+			b = append(b, byte('a'+next()%26))
 		}
 	}
 	return b
@@ -471,7 +509,21 @@ func vfC19Run(v *vfT, c vfC19Case) {
 				v.Label("inconclusive:reliable-channel-incomplete")
 				continue
 			}
-			if lv.sent[s] > 1 {
+			illFormed := false
+			for k := 0; k < lv.sent[s] && k < len(msgs); k++ {
+				switch valid := utf8.Valid(vfC19Payload(msgs[k])); {
+				case msgs[k].Text && !valid:
+					illFormed = true
+					v.Label("msg:text-illformed-utf8")
+				case msgs[k].Text && msgs[k].Size == 0:
+					v.Label("msg:text-empty")
+				case msgs[k].Text && msgs[k].Style == 1:
+					v.Label("msg:text-valid-multibyte")
+				case !msgs[k].Text && valid && msgs[k].Size > 0:
+					v.Label("msg:binary-that-is-valid-text")
+				}
+			}
+			if lv.sent[s] > 1 || illFormed {
 				nontrivial = true
 			}
 			v.Label("reliable-direction-complete")
@@ -513,7 +565,8 @@ func vfC19GenMsgs(v *vfT, name string, budget *int) []vfC19Msg {
 			size = rapid.IntRange(0, 64).Draw(v.R, name+"_small")
 		}
 		*budget -= size
-		out = append(out, vfC19Msg{Size: size, Text: rapid.Bool().Draw(v.R, name+"_text"), Seed: rapid.Uint32().Draw(v.R, name+"_seed")})
+		out = append(out, vfC19Msg{Size: size, Text: rapid.Bool().Draw(v.R, name+"_text"), Seed: rapid.Uint32().Draw(v.R, name+"_seed"),
+			Style: rapid.SampledFrom([]int{0, 1, 2, 2, 3}).Draw(v.R, name+"_style")})
 	}
 	return out
 }
@@ -539,11 +592,11 @@ func vfC19GenLabel(v *vfT, name string) string {
 
 func TestVerif_C19_Delivery(t *testing.T) {
 	vfProperty(t, "C19", vfOpts{
-		Rule: "1..4 channels (label empty/ASCII/unicode/1 KiB, protocol, ordered, maxRetransmits|maxPacketLifeTime|neither, in-band from either side before or after connect, or negotiated) x message lists of 0..24 messages per direction (sizes 0..64 KiB, text/binary, <=600 KiB per case) x host network or vnet with 0..20 ms delay and 0..30 ms jitter; non-trivial = some reliable ordered direction carried >=2 messages and was compared completely",
+		Rule: "1..4 channels (label empty/ASCII/unicode/1 KiB, protocol, ordered, maxRetransmits|maxPacketLifeTime|neither, in-band from either side before or after connect, or negotiated) x message lists of 0..24 messages per direction (sizes 0..64 KiB, text/binary, contents ASCII / valid multi-byte UTF-8 / ill-formed UTF-8 / arbitrary bytes, <=600 KiB per case) x host network or vnet with 0..20 ms delay and 0..30 ms jitter; non-trivial = some reliable ordered direction was compared completely and carried >=2 messages or a text message that is not valid UTF-8",
 		Assumptions: []string{
 			"messages are sent after both ends were observed open, one sender goroutine per end, so the send order is defined",
 			"negotiated channels are created on both sides before signalling",
-			"a valid UTF-8 restriction is not needed: text payloads are ASCII",
+			"text payloads are arbitrary byte strings (ASCII, valid multi-byte UTF-8, ill-formed UTF-8: lone continuation bytes, truncated runes, C0 80, encoded surrogates, FF/FE, arbitrary bytes); binary payloads use the same styles, so some are valid text; SendText takes a Go string, which may hold any bytes, and the statement promises identical bytes",
 			"only reliable ordered channels are asserted (the statement is silent on the others); their far end is compared as a prefix at any time and as the full list when BufferedAmount()==0 on the sender, the pair is connected, the ends are open and 5 s passed without a delivery",
 			"the vnet adds delay and jitter (reordering) but never drops",
 		},
